@@ -193,3 +193,24 @@ Example C18_startup_order_consequences :
   st_code (status_of (hrun (early ++ mark_ops (marks_of "audit_ingester")))) = 200.
 Proof. vm_compute. repeat split; reflexivity. Qed.
 End C18Daemon.
+
+(* ---------- the endpoint itself: cmd/cmd.go, read from the source ----------
+   Gen/OptWorkers.v is REGENERATED on every run from handleMetricsAndHealth.  For EVERY valuation of the flags:
+   /readyz is registered exactly when -healthz is given, and the handler registered for it is the ReadyzHandler of
+   the function's own *health.Health parameter (RunNamedPipe passes its health object: Gen/DaemonWiring.v,
+   health_readers); nothing else is registered besides /metrics under -metrics. *)
+From Coq Require Import String.
+From AM Require Import Model.WorkerWiring Model.OptWorkers Gen.OptWorkers Proofs.OptWorkersTie.
+Theorem C18_endpoint_from_source : forall fl : flags,
+  option_map handles (effects fl gen_handleMetricsAndHealth) =
+  Some (((if fl "enableMetrics"%string then [(WStr "/metrics", WCall "promhttp.Handler" [])] else []) ++
+         (if fl "enableHealthz"%string then [(WStr "/readyz", WMethod (WVar "h") "ReadyzHandler" [])] else []))%list).
+Proof. exact endpoints_from_source. Qed.
+Print Assumptions C18_endpoint_from_source.
+
+Theorem C18_endpoint_health_is_parameter :
+  In ("h"%string, "*health.Health"%string) (of_params gen_handleMetricsAndHealth) /\
+  In ("eg"%string, "*errgroup.Group"%string) (of_params gen_handleMetricsAndHealth) /\
+  In ("ctx"%string, "context.Context"%string) (of_params gen_handleMetricsAndHealth).
+Proof. exact readyz_health_is_parameter. Qed.
+Print Assumptions C18_endpoint_health_is_parameter.
